@@ -324,9 +324,13 @@ func verifC12Scenarios() {
 		h := w.create("d0", "f")
 		w.appendTo(h, verifNondetBytes("big", 4094))
 		w.appendTo(h, verifNondetBytes("tail", 5))
+		r0 := w.open("d0", "f")
+		w.readWindow(r0, 4092, 4097, 6)
+		w.appendTo(h, verifNondetBytes("more", 4200)) // 8299 bytes: three 4096-byte chunks
 		w.closeH(h)
 		r := w.open("d0", "f")
-		w.readWindow(r, 4092, 4097, 6)
+		w.readWindow(r, 0, 2, 8297)
+		w.readWindow(r, 4090, 4091, 4200)
 		w.readAtN(r, 1, 3, 3)
 	case 5: // six entries in one directory, one of them removed, one replaced atomically
 		for _, n := range w.names {
